@@ -28,7 +28,10 @@ def generate(plan) -> None:
     k["p_ann_dup"] = 0.0 if ff else r.choice([0.0, 0.2])
     k["p_rp_lost"] = 0.0 if ff else r.choice([0.0, 0.1, 0.3])
     k["preload"] = r.choice([0, 0, 1, 3, 8, 20, 64, 70])
+    k["deep_first"] = k["preload"] >= 64 and r.random() < 0.5  # learn the whole (full) log first
     ops = plan.d["ops"]
+    if k["deep_first"]:
+        ops.append({"op": "readthrough", "n": 64})
     for _ in range(r.randrange(3, 26)):
         x = r.random()
         if x < 0.35:
@@ -100,6 +103,9 @@ async def run(ctx) -> None:
             ctx.violate("C19", "duplicate", "", f"{where}: entry {d} appears at positions {[i for i, t in items if t == d]}; view={items[:10]}")
         elif any(a <= b for a, b in zip(tss, tss[1:])):
             ctx.violate("C19", "order", "", f"{where}: not newest-first: {items[:12]}")
+        if items and items[-1][0] > 63:
+            ctx.violate("C19", "position_beyond_log", "", f"{where}: the view has an entry at position {items[-1][0]}; a controller's log has "
+                        f"positions 0..63: {items[-3:]}")
         if not set(tss) <= delivered:
             ctx.violate("C19", "phantom", "", f"{where}: {sorted(set(tss) - delivered)[:3]} was never reported by the controller")
         return v
